@@ -4,6 +4,7 @@ import (
 	"bytes"
 	"encoding/json"
 	"fmt"
+	"io"
 	"math"
 	"math/big"
 	"os"
@@ -11,6 +12,7 @@ import (
 	"sort"
 	"strconv"
 	"strings"
+	"syscall"
 	"time"
 
 	vegeta "github.com/tsenart/vegeta/v12/lib"
@@ -138,7 +140,7 @@ func runImpl(h history) (*vegeta.Metrics, string) {
 
 // ---------------------------------------------------------------- generators
 
-var errPool = []string{"connection refused", "EOF", "Get \"http://x\": dial tcp: lookup x: no such host", "timeout, retry",
+var errPool = []string{"connection refused", "EOF", "eof", "EOF ", " EOF", "EOF: unexpected", "Connection Refused", "Get \"http://x\": dial tcp: lookup x: no such host", "timeout, retry",
 	"500 Internal Server Error", "x", "unexpected \"quote\"", "ünïcödé ✓", "a,b;c", "context deadline exceeded (Client.Timeout exceeded while awaiting headers)"}
 
 const year2200 = int64(7258118400) * 1000000000 // 2200-01-01T00:00:00Z in ns
@@ -479,6 +481,10 @@ func oracle(s *kit.Summary, h history, m *vegeta.Metrics) {
 	if diff.Cmp(tol) > 0 {
 		bad("metrics_latency_mean", "latency mean differs from total/requests", exactMean.String(), fmt.Sprint(int64(m.Latencies.Mean)), nil)
 	}
+	if dur == 0 && (math.IsNaN(m.Rate) || math.IsInf(m.Rate, 0) || math.IsNaN(m.Throughput) || math.IsInf(m.Throughput, 0)) {
+		// no "per second" exists for a single instant; whatever is shown must at least be a number
+		bad("metrics_rate_not_finite", "rate/throughput of a report spanning a single instant is not a finite number", "finite", fmt.Sprint(m.Rate, m.Throughput), nil)
+	}
 	if dur > 0 {
 		// rate = requests per second of duration; throughput = successes per second of duration+wait
 		e9 := big.NewInt(1000000000)
@@ -582,12 +588,53 @@ func checkHistory(r *kit.Rng, s *kit.Summary, st *kit.Stream, h history, dom boo
 
 // ---------------------------------------------------------------- the report command
 
+// slowFeed makes `path` a FIFO and feeds the encoded results through it in three parts with pauses of
+// `pause` in between, so that ticks of `report -every` (shorter than the pause) fall between records:
+// the command then writes periodic reports deterministically.
+func slowFeed(path string, format int, rs []res, pause time.Duration) error {
+	var buf bytes.Buffer
+	cuts := []int{}
+	k1, k2 := len(rs)/3, 2*len(rs)/3
+	if err := encodeResults(&buf, format, rs, func(i int) {
+		if i == k1 || i == k2 {
+			cuts = append(cuts, buf.Len())
+		}
+	}); err != nil {
+		return err
+	}
+	if err := syscall.Mkfifo(path, 0o600); err != nil {
+		return err
+	}
+	data := buf.Bytes()
+	go func() {
+		f, err := os.OpenFile(path, os.O_WRONLY, 0) // blocks until the command opens the file
+		if err != nil {
+			return
+		}
+		defer f.Close()
+		prev := 0
+		for _, c := range append(cuts, len(data)) {
+			if c > prev {
+				f.Write(data[prev:c])
+				prev = c
+				time.Sleep(pause)
+			}
+		}
+	}()
+	return nil
+}
+
 func writeResults(path string, format int, rs []res) error {
 	f, err := os.Create(path)
 	if err != nil {
 		return err
 	}
 	defer f.Close()
+	return encodeResults(f, format, rs, nil)
+}
+
+// encodeResults writes the results in the given encoding; `before(i)` runs before record i is encoded.
+func encodeResults(f io.Writer, format int, rs []res, before func(int)) error {
 	var enc vegeta.Encoder
 	switch format {
 	case 0:
@@ -598,6 +645,9 @@ func writeResults(path string, format int, rs []res) error {
 		enc = vegeta.NewCSVEncoder(f)
 	}
 	for i, x := range rs {
+		if before != nil {
+			before(i)
+		}
 		v := x.result()
 		v.Attack, v.Seq, v.Method, v.URL = "c10", uint64(i), "GET", "http://localhost/"
 		if err := enc.Encode(v); err != nil {
@@ -605,6 +655,74 @@ func writeResults(path string, format int, rs []res) error {
 		}
 	}
 	return nil
+}
+
+// carryOverResults alternates records with all-non-zero fields and records whose Code, Error, byte
+// counts and latency are zero/empty.
+func carryOverResults(r *kit.Rng, n int) []res {
+	out := make([]res, n)
+	ts := r.Range(0, year2200-int64(n)*1000)
+	for i := range out {
+		out[i].TS = ts + int64(i)*1000
+		if (i+r.Pick(2))%2 == 0 {
+			out[i].Code, out[i].Err = uint16(r.PickI64([]int64{500, 503, 200, 404})), errPool[r.Pick(len(errPool))]
+			out[i].BIn, out[i].BOut, out[i].Lat = uint64(r.Range(1, 5000)), uint64(r.Range(1, 500)), r.Range(1, 50)*1000000
+		}
+	}
+	return out
+}
+
+// zeroAfterNonzero: some record has a zero/empty field right after a record where it is set.
+func zeroAfterNonzero(rs []res) bool {
+	for i := 1; i < len(rs); i++ {
+		a, b := rs[i-1], rs[i]
+		if (a.Err != "" && b.Err == "") || (a.Code != 0 && b.Code == 0) || (a.BIn != 0 && b.BIn == 0) || (a.BOut != 0 && b.BOut == 0) || (a.Lat != 0 && b.Lat == 0) {
+			return true
+		}
+	}
+	return false
+}
+
+// shapeCounters records which of the order-sensitive situations of Add a history contains.
+func shapeCounters(s *kit.Summary, rs []res) {
+	if len(rs) < 2 {
+		return
+	}
+	iE, iL, iN := 0, 0, 0
+	for i, x := range rs {
+		if x.TS < rs[iE].TS {
+			iE = i
+		}
+		if x.TS > rs[iL].TS {
+			iL = i
+		}
+		if x.TS+x.Lat > rs[iN].TS+rs[iN].Lat {
+			iN = i
+		}
+	}
+	if rs[iN].TS < rs[iL].TS {
+		s.Count("shape:end_from_result_before_latest")
+	}
+	if iE != 0 {
+		s.Count("shape:earliest_not_first")
+	}
+	if iL != len(rs)-1 {
+		s.Count("shape:latest_not_last")
+	}
+	if rs[iL].TS-rs[iE].TS < 1000000000 && rs[iL].TS != rs[iE].TS {
+		s.Count("shape:duration_below_one_second")
+	}
+	seen := map[string]bool{}
+	for _, x := range rs {
+		if x.Err != "" {
+			l := strings.ToLower(strings.TrimSpace(x.Err))
+			if seen[l] && !seen["="+x.Err] {
+				s.Count("shape:errors_equal_up_to_case_or_space")
+				break
+			}
+			seen[l], seen["="+x.Err] = true, true
+		}
+	}
 }
 
 func reportCommand(c *run.Ctx, r *kit.Rng, s *kit.Summary) {
@@ -627,17 +745,37 @@ func reportCommand(c *run.Ctx, r *kit.Rng, s *kit.Summary) {
 		}
 		rs := genResults(r, size, true, s)
 		format := r.Pick(3)
+		if i%10 == 0 {
+			// gob omits zero-valued fields: records whose fields are zero/empty right after records where they
+			// are not (a decoder target reused across records would carry the old values over)
+			format = 0
+			rs = carryOverResults(r, 2+r.Pick(40))
+			s.Count("report:crafted_zero_after_nonzero")
+		}
+		if format == 0 && zeroAfterNonzero(rs) {
+			s.Count("report:gob_zero_field_after_nonzero")
+		}
 		in := filepath.Join(c.Work, fmt.Sprintf("res%d.bin", i))
 		out := filepath.Join(c.Work, fmt.Sprintf("rep%d.json", i))
 		outT := filepath.Join(c.Work, fmt.Sprintf("rep%d.txt", i))
-		if err := writeResults(in, format, rs); err != nil {
+		fifo := i%10 == 5 && size >= 3
+		var err error
+		if fifo {
+			err = slowFeed(in, format, rs, 12*time.Millisecond)
+		} else {
+			err = writeResults(in, format, rs)
+		}
+		if err != nil {
 			s.Diverge("c10.report", "write "+in, err.Error(), "")
 			continue
 		}
 		// periodic reporting (Close between additions). A tick that takes longer to serve than the
 		// interval starves decoding (select prefers the ready ticker over default), so long inputs get 20ms.
 		every := int64(0)
-		if size >= 5000 {
+		if fifo {
+			every = 2000000
+			s.Count("report:slow_input_every=2ms")
+		} else if size >= 5000 {
 			every = 20000000
 			s.Count("report:every=20ms")
 		} else if r.Chance(0.2) || (size >= 100 && r.Chance(0.5)) {
@@ -645,7 +783,16 @@ func reportCommand(c *run.Ctx, r *kit.Rng, s *kit.Summary) {
 			s.Count("report:every=1ms")
 		}
 		s.Count("report:format=" + []string{"gob", "json", "csv"}[format])
-		ops = append(ops, fmt.Sprintf("report %s %d - %s %s", kit.HexS("json"), every, kit.HexS(out), kit.HexS(in)))
+		buckets := "-"
+		if i%7 == 3 { // the JSON report with the optional histogram: the other fields must not change
+			buckets = kit.HexS("[0,1ms,10ms,1s]")
+			s.Count("report:with_buckets")
+		}
+		ops = append(ops, fmt.Sprintf("report %s %d %s %s %s", kit.HexS("json"), every, buckets, kit.HexS(out), kit.HexS(in)))
+		if fifo { // the FIFO can be read once
+			jobs = append(jobs, job{history{Results: rs}, out, outT, len(ops) - 1, -1, every})
+			continue
+		}
 		ops = append(ops, fmt.Sprintf("report %s 0 - %s %s", kit.HexS("text"), kit.HexS(outT), kit.HexS(in)))
 		jobs = append(jobs, job{history{Results: rs}, out, outT, len(ops) - 2, len(ops) - 1, every})
 	}
@@ -672,12 +819,17 @@ func reportCommand(c *run.Ctx, r *kit.Rng, s *kit.Summary) {
 		if len(lines) > 1 {
 			s.Count("report:several_reports_written")
 		}
-		var m vegeta.Metrics
-		if err := json.Unmarshal(lines[len(lines)-1], &m); err != nil {
-			s.Diverge("c10.report", ops[j.opJ], "unparsable JSON report: "+err.Error(), "")
+		m, err := parseJSONReport(lines[len(lines)-1])
+		if err != nil {
+			s.Violate(kit.Violation{Kind: "report_json_layout", What: "JSON report does not have the documented layout: " + err.Error(),
+				Input: j.h, Observed: string(lines[len(lines)-1])})
 			continue
 		}
-		jl := lineOf(&m)
+		jl := lineOf(m)
+		// the statement's own predicate on what the command printed
+		if inDomain(j.h.Results) {
+			oracle(s, j.h, m)
+		}
 		// the library-level values for the same results, added in file order and closed once
 		_, lib := runImpl(j.h)
 		if jl != lib {
@@ -689,6 +841,9 @@ func reportCommand(c *run.Ctx, r *kit.Rng, s *kit.Summary) {
 		checkLoop(s, stL, j.h, lines)
 		os.Remove(j.out)
 		// the text report of the command
+		if j.opT < 0 {
+			continue
+		}
 		if outs[j.opT] != "ok" {
 			s.Diverge("c10.report_text", ops[j.opT], outs[j.opT], "ok")
 			continue
@@ -708,7 +863,9 @@ func reportCommand(c *run.Ctx, r *kit.Rng, s *kit.Summary) {
 		}
 		if rows, errs, ok := parseText(text); ok {
 			stT.Add(textOp(j.h, lm), textLine(rows, errs))
-			textOracle(s, j.h, lm, rows, errs)
+			if inDomain(j.h.Results) {
+				textOracle(s, j.h, lm, rows, errs)
+			}
 		} else {
 			stT.Add(textOp(j.h, lm), "unparsable "+kit.Hex(text))
 		}
@@ -793,6 +950,9 @@ func runC10(c *run.Ctx, s *kit.Summary) {
 		}
 		if hasZero(rs) {
 			s.Count("has_zero_latency")
+		}
+		if dom {
+			shapeCounters(s, rs)
 		}
 		if i < 2 && size < 10 {
 			s.Sample(map[string]interface{}{"op": "c10.run", "history": h})
